@@ -46,7 +46,7 @@ func projects() []*project {
 			Files:     readTree(filepath.Join(td, "multi")),
 			StartDirs: [3]string{".", "schema/shop", "schema/shop/extra"}},
 		{Name: "input", Quick: true,
-			About:     "input-heavy schema (17 inputs, defaults, input directives, @oneOf, omittable, extraFields, enum_values, custom scalar), single-file exec, single-file resolver layout, models in their own package",
+			About:     "input-heavy schema (15 inputs, scalar/list/object-literal defaults, input directives, @oneOf, omittable, extraFields, enum_values, custom scalar), single-file exec, single-file resolver layout, models in their own package",
 			Files:     readTree(filepath.Join(td, "input")),
 			StartDirs: [3]string{".", "ext", "graph/model"}},
 		{Name: "fed", Quick: true,
